@@ -47,6 +47,7 @@ def only_flags_differ(a, b):
 
 def check_desc_history(rep, text, cfg, ops):
     d = pytrs.PLSSDesc(text, config=cfg)
+    cfgs = [cfg] if cfg else []          # settings accumulate over successive config assignments
     for op in ops:
         before = snap_desc(d)
         k = op[0]
@@ -63,9 +64,15 @@ def check_desc_history(rep, text, cfg, ops):
                 if again != after:
                     return rep.violation('failing-input', {'object': 'PLSSDesc', 'text': text, 'config': cfg, 'history': ops,
                                                            'why': 're-parsing with unchanged settings changed the result'})
-                # returned value = stored value
-                if [impl.render(impl.tract_snap(t)) for t in r] != [impl.render(impl.tract_snap(t)) for t in r]:
-                    pass
+                # a committed parse replaces earlier results and leaves no trace of earlier one-off keywords:
+                # same as a fresh object with the accumulated settings, parsed with these keywords
+                fresh = pytrs.PLSSDesc(text, config=cfg, wait_to_parse=True)
+                for c in cfgs[(1 if cfg else 0):]:
+                    fresh.config = c            # the same assignments, in order — only the earlier parses are left out
+                fresh.parse(commit=True, **kw)
+                if snap_desc(fresh) != after:
+                    return rep.violation('failing-input', {'object': 'PLSSDesc', 'text': text, 'config': cfg, 'history': ops,
+                                                           'why': 'committed parse differs from a fresh object with the same settings'})
         elif k == 'parse_tracts':
             d.parse_tracts(**op[1])
             after = snap_desc(d)
@@ -83,6 +90,7 @@ def check_desc_history(rep, text, cfg, ops):
                                                        'why': 'preprocess(commit=False) changed the object'})
         elif k == 'config':
             d.config = op[1]
+            cfgs.append(op[1])
         elif k == 'sort':
             d.sort_tracts(op[1])
     return None
